@@ -48,6 +48,8 @@ pub fn rerun(line: &str) -> Option<String> {
         ["wasm", hx, ops] => Some(crate::wasmops::wasm_line(
             &String::from_utf8(unhex(hx)).ok()?, &crate::wasmops::parse(ops)?)),
         ["wasmqr", hx] => Some(crate::wasmops::wasmqr_line(&String::from_utf8(unhex(hx)).ok()?)),
+        ["hist", hx, ops] => Some(crate::histops::hist_line(&unhex(hx), &crate::histops::parse(ops)?)),
+        ["threads", t, seed, k] => Some(crate::histops::threads_line(t.parse().ok()?, seed.parse().ok()?, k.parse().ok()?)),
         ["classify", hx] => Some(crate::gen::classify_line(&unhex(hx))),
         _ => None,
     }
